@@ -6,5 +6,5 @@ mkdir -p ../.build/ocaml
 cp gen/kmodel.ml gen/kmodel.mli conv.ml *_mode.ml driver.ml ../.build/ocaml/
 cd ../.build/ocaml
 MODES=$(ls *_mode.ml | sort | tr '\n' ' ')
-ocamlfind ocamlopt -O3 -w -a -package str -linkpkg kmodel.mli kmodel.ml conv.ml $MODES driver.ml -o ../kmodel 2>/dev/null || \
-ocamlfind ocamlopt -w -a -package str -linkpkg kmodel.mli kmodel.ml conv.ml $MODES driver.ml -o ../kmodel
+ocamlfind ocamlopt -O3 -w -a -thread -package str,threads.posix -linkpkg kmodel.mli kmodel.ml conv.ml $MODES driver.ml -o ../kmodel 2>/dev/null || \
+ocamlfind ocamlopt -w -a -thread -package str,threads.posix -linkpkg kmodel.mli kmodel.ml conv.ml $MODES driver.ml -o ../kmodel
